@@ -26,6 +26,8 @@ pub enum Wr {
     Guard,
     Hide,
     Fallback,
+    /// `fallback(v).display_fallback()`: the same parser, the default is shown in the help
+    FallbackShown,
     FallbackWithOk,
     FallbackWithErr,
     Last,
@@ -73,7 +75,7 @@ enum Ty6 {
 }
 fn out_ty(w: Wr) -> Ty6 {
     match w {
-        Wr::Guard | Wr::Hide | Wr::Fallback | Wr::FallbackWithOk | Wr::FallbackWithErr | Wr::Last => Ty6::Scalar,
+        Wr::Guard | Wr::Hide | Wr::Fallback | Wr::FallbackShown | Wr::FallbackWithOk | Wr::FallbackWithErr | Wr::Last => Ty6::Scalar,
         Wr::Optional | Wr::OptionalCatch => Ty6::Opt,
         Wr::Count => Ty6::Opt, // a terminal type: only `hide` may follow
         _ => Ty6::List,
@@ -81,7 +83,7 @@ fn out_ty(w: Wr) -> Ty6 {
 }
 fn applicable(cur: Ty6) -> Vec<Wr> {
     match cur {
-        Ty6::Scalar => vec![Wr::Guard, Wr::Hide, Wr::Fallback, Wr::FallbackWithOk, Wr::FallbackWithErr, Wr::Last, Wr::Optional, Wr::OptionalCatch, Wr::Many, Wr::ManyCatch, Wr::Some, Wr::SomeCatch, Wr::Collect, Wr::Count],
+        Ty6::Scalar => vec![Wr::Guard, Wr::Hide, Wr::Fallback, Wr::FallbackShown, Wr::FallbackWithOk, Wr::FallbackWithErr, Wr::Last, Wr::Optional, Wr::OptionalCatch, Wr::Many, Wr::ManyCatch, Wr::Some, Wr::SomeCatch, Wr::Collect, Wr::Count],
         Ty6::Opt => vec![Wr::Hide],
         Ty6::List => vec![Wr::GuardLen, Wr::Hide, Wr::FallbackList],
     }
@@ -124,6 +126,7 @@ fn apply(w: Wr, p: P) -> P {
         Wr::Guard => P::Guard(p.bx(), GuardK::Lt10),
         Wr::Hide => P::Hide(p.bx()),
         Wr::Fallback => P::Fallback(p.bx(), Val::N(5), false),
+        Wr::FallbackShown => P::Fallback(p.bx(), Val::N(5), true),
         Wr::FallbackWithOk => P::FallbackWith(p.bx(), Ok(Val::N(5))),
         Wr::FallbackWithErr => P::FallbackWith(p.bx(), Err("no default available".into())),
         Wr::Last => P::Last(p.bx()),
@@ -179,7 +182,7 @@ fn absent_ok(s: &[Wr]) -> bool {
     for w in s {
         ok = match w {
             Wr::Guard | Wr::Hide | Wr::Last | Wr::GuardLen => ok,
-            Wr::Fallback | Wr::FallbackWithOk | Wr::FallbackList => true,
+            Wr::Fallback | Wr::FallbackShown | Wr::FallbackWithOk | Wr::FallbackList => true,
             Wr::FallbackWithErr => ok,
             Wr::Optional | Wr::OptionalCatch | Wr::Many | Wr::ManyCatch | Wr::Collect | Wr::Count => true,
             Wr::Some | Wr::SomeCatch => ok,
@@ -198,7 +201,7 @@ fn guarded(d: &Def) -> bool {
             Wr::Guard => return true,
             // after `last` a guard sees only the last value: earlier ones are dropped by design
             Wr::Last => return false,
-            Wr::Hide | Wr::Fallback | Wr::FallbackWithOk | Wr::FallbackWithErr => {}
+            Wr::Hide | Wr::Fallback | Wr::FallbackShown | Wr::FallbackWithOk | Wr::FallbackWithErr => {}
             _ => return false,
         }
     }
@@ -213,6 +216,7 @@ pub fn alphabet_for(d: &Def) -> Vec<Tok> {
     } else {
         a.push(Tok::s("--num=7"));
         a.push(Tok::s("--num=3"));
+        a.push(Tok::s("-n3"));
         a.push(Tok::s("-n"));
         a.push(Tok::s("7"));
     }
@@ -246,6 +250,9 @@ fn typed_occurrences(d: &Def, argv: &[Tok]) -> Vec<(usize, Vec<u8>)> {
             }
         } else if t.starts_with(b"--num=") {
             out.push((i, b"--num=".to_vec()));
+        } else if t.starts_with(b"-n") && t.len() > 2 && t[2] != b'=' {
+            // the value attached to the short name
+            out.push((i, b"-n".to_vec()));
         } else if t == b"-n" && i + 1 < argv.len() && argv[i + 1].0 == b"7" {
             out.push((i + 1, vec![]));
             i += 1;
@@ -299,6 +306,11 @@ fn check_accepted(d: &Def, unit: &Value, p: &bpaf::OptionParser<Val>, argv: &[To
             if b.attached_only && prefix.is_empty() {
                 continue;
             }
+            // attached to the short name: no value at all is a bare name, bytes that are not
+            // UTF-8 are C02's business (known findings there)
+            if prefix == b"-n" && (b.text.is_empty() || b.text == [0xff] || b.text == b"-1") {
+                continue;
+            }
             if d.prim == Prim::Pos && b.text.is_empty() {
                 // an empty word is a legitimate positional item; still invalid for u32
             }
@@ -335,12 +347,30 @@ fn check_accepted(d: &Def, unit: &Value, p: &bpaf::OptionParser<Val>, argv: &[To
             }
         }
     }
+    // the attached short spelling of a valid value means the same as the inline long one (not
+    // for hidden items: that is the known finding F3a of C02)
+    if d.prim != Prim::Pos && !d.stack.contains(&Wr::Hide) {
+        if let Some(i) = argv.iter().position(|t| t.0 == b"--num=3") {
+            let mut v2 = argv.to_vec();
+            v2[i] = Tok::s("-n3");
+            if only.map_or(true, |o| o == v2.as_slice()) {
+                ctx.s.evaluations += 1;
+                let base = run(p, argv);
+                let r = run(p, &v2);
+                if r != base {
+                    ctx.violation(viol("attached-short-spelling-of-a-valid-value-is-the-same", d, unit, "respelled", argv, &v2, format!("the outcome of the long inline spelling: {}", base.brief()), &r));
+                } else {
+                    ctx.count("respelled-valid-values");
+                }
+            }
+        }
+    }
     // the item removed entirely (all its occurrences)
     let mut v3: Vec<Tok> = vec![];
     let mut i = 0;
     while i < argv.len() {
         let t = &argv[i].0;
-        let is_typed = if d.prim == Prim::Pos { t == b"7" || t == b"3" } else { t.starts_with(b"--num=") };
+        let is_typed = if d.prim == Prim::Pos { t == b"7" || t == b"3" } else { t.starts_with(b"--num=") || (t.starts_with(b"-n") && t.len() > 2) };
         if is_typed {
             i += 1;
             continue;
